@@ -30,8 +30,9 @@ ASSUMPTIONS = [
     'aes_dec k (aes_enc k b) = b on 16-byte blocks, output length of scrypt and of the hash); in the correspondence their values come '
     'from hashlib.scrypt, an AES written here from FIPS-197 and unicodedata, cross-checked each run against the '
     'repository\'s scrypt_hash and Crypto.Cipher.AES',
-    'Base58 round trip (change_base(base58encode(x)) = x for the 43/53-byte payloads) and the curve facts '
-    '(k*G finite for 0<k<n; (a*b mod n)*G = b*(a*G)) are visible premises of the theorems, not proved here',
+    'Base58 facts (change_base(base58encode(x)) = x for the 43/53-byte payloads; a 43-byte payload starting 01 42/43 is written as 58 '
+    'characters starting 6P) and the curve facts (k*G finite; (a*b mod n)*G = b*(a*G) on serialised points; 33-byte compressed points) '
+    'are visible premises of the theorems, not proved here',
     'PARTIAL: "fresh" is a statement about the OS entropy source; modelled and proved is which os.urandom draw each '
     'generating call consumes (process model), validated by replacing os.urandom with a counting stream before import',
 ]
@@ -751,6 +752,8 @@ def _class(c):
     """Recorded classes, decided from the request alone."""
     t = c.req.split(' ')
     k = t[0]
+    if k in ('enc', 'dec') and t[1] == 'hdkeydef':
+        return 'hdkey_default_witness'
     if k in ('enc', 'dec') and t[-2] != t[-1]:
         return 'passphrase_not_nfc'
     if k == 'decinfo' and t[2] != t[3]:
@@ -817,15 +820,16 @@ def prop_check(c, out):
             return 'unexpected answer %r' % out[:160]
         uses, drawn, dig = f[1].split(','), f[2].split(','), f[3].split(',')
         seen = {}
-        for i, op in enumerate(ops):
+        for i, op in enumerate(ops):        # 1. no two default-relying calls may use the same chunk
             if op.endswith('x'):
                 continue
             if uses[i] in seen:
-                return ('call %d (%s) uses entropy chunk %s already used by call %d: default bound at import, not drawn per call%s'
+                return ('call %d (%s) uses entropy chunk %s already used by call %d: the default is bound once at import, not drawn per call%s'
                         % (i + 1, op, uses[i], seen[uses[i]] + 1, '; results identical' if dig[i] == dig[seen[uses[i]]] else ''))
-            if uses[i] not in drawn[i].split(';'):
-                return 'call %d (%s) uses chunk %s which was not drawn during the call (drawn: %s)' % (i + 1, op, uses[i], drawn[i])
             seen[uses[i]] = i
+        for i, op in enumerate(ops):        # 2. each must be drawn inside the call that uses it
+            if not op.endswith('x') and uses[i] not in drawn[i].split(';'):
+                return 'call %d (%s) uses chunk %s which was not drawn during the call (drawn: %s)' % (i + 1, op, uses[i], drawn[i])
         for i in range(len(ops)):
             for j in range(i):
                 if ops[i][0] == ops[j][0] == 'N' and dig[i] == dig[j]:
@@ -843,6 +847,7 @@ KNOWN_CLASSES = {
     'passphrase_not_nfc': lambda c, io, mo: _class(c) == 'passphrase_not_nfc',
     'ec_foreign_network': lambda c, io, mo: _class(c) == 'ec_foreign_network',
     'sequence_zero_refused': lambda c, io, mo: _class(c) == 'sequence_zero_refused',
+    'hdkey_default_witness': lambda c, io, mo: _class(c) == 'hdkey_default_witness',     # replayed only, never generated
 }
 
 
